@@ -27,6 +27,7 @@ type Trigger struct {
 	Phase  string `json:"phase"`  // before | after (after the reply was produced, before it is delivered)
 	Victim string `json:"victim"` // target | other
 	Drop   bool   `json:"drop"`   // after: drop the reply instead of delivering it
+	HoldMs int    `json:"hold_ms,omitempty"` // after: deliver the reply only this long after the kill (the driver learns of the loss first)
 }
 
 // Event is one observed RPC (or kill).
@@ -273,6 +274,9 @@ func (s *System) observe(method, addr, phase string, ordinal int) (drop bool) {
 		s.mu.Unlock()
 		if t.Drop {
 			drop = true
+		}
+		if t.HoldMs > 0 {
+			time.Sleep(time.Duration(t.HoldMs) * time.Millisecond)
 		}
 	}
 	return drop
